@@ -1564,7 +1564,12 @@ fn parse_mapping(mapping: &Mapping) -> crate::Result<Expression> {
                                         .collect::<Vec<_>>(),
                                 )
                                 .build()
-                                .expect("could not build regex set"),
+                                .map_err(|e| {
+                                    crate::error::parse_invalid_ident(format!(
+                                        "could not build regex set - '{}'",
+                                        e
+                                    ))
+                                })?,
                                 false,
                             ),
                             f.to_owned(),
@@ -1596,7 +1601,12 @@ fn parse_mapping(mapping: &Mapping) -> crate::Result<Expression> {
                                 )
                                 .case_insensitive(true)
                                 .build()
-                                .expect("could not build regex set"),
+                                .map_err(|e| {
+                                    crate::error::parse_invalid_ident(format!(
+                                        "could not build regex set - '{}'",
+                                        e
+                                    ))
+                                })?,
                                 true,
                             ),
                             f.to_owned(),
